@@ -307,11 +307,21 @@ Definition lbl_flow : str := [102;108;111;119]%N.
 (* self.context = copy.deepcopy(context) *)
 Definition sheet_parser_init (context : ref) : M ref := let* v := read context  in alloc v.
 Definition add_to_context (sp : ref) (k v : str) : M unit := write sp (fun d => aset d k v).
+(* dict.pop(k) raises KeyError on an absent key, dict.pop(k, None) does not: which of the two
+   the tree at hand uses is the regenerated constant [remove_tolerant] *)
 Definition remove_from_context (sp : ref) (k : str) : M unit :=
   let* d := read sp  in
   match aget d k with
-  | None => throw Raise                                      (* dict.pop(k): KeyError *)
+  | None => if remove_tolerant then ret tt else throw Raise
   | Some _ => write sp (fun d => apop d k)
+  end.
+(* what FlowParser does with the loop variable after end_for: [sh] is the binding the variable
+   hid when the loop started (SheetParser.get_shadowed_context); the regenerated policy says
+   whether it is put back (ScopeRestore) or the variable is simply removed (ScopePop) *)
+Definition leave_loop (sp : ref) (k : str) (sh : option str) : M unit :=
+  match loop_scope_policy, sh with
+  | ScopeRestore, Some v => add_to_context sp k v
+  | _, _ => remove_from_context sp k
   end.
 
 (* CellParser.parse_as_string on the mini language: a variable is looked up in the context
@@ -337,6 +347,35 @@ Definition lift_rec_g (c : cont) (name : str) (u : option uuid) : M cont :=
 Definition lift_rec_f (c : cont) (name : str) (u : option uuid) : M cont :=
   let* d := lift (record_uuid (c_fdict c) name u)  in ret (mkC (c_flows c) (c_groups c) d (c_gdict c)).
 
+(* a row that is read but not evaluated (_parse_block with omit_content: the body of a loop
+   with nothing to iterate over): SheetParser.parse_next_row with omit_templating, no
+   _parse_row; only a row the row model cannot place still raises *)
+Fixpoint skip_frow (r : frow) : M unit :=
+  match r with
+  | FBadRow => with_ctx lbl_row (throw Raise)
+  | FFor _ _ body =>
+      let* _ := with_ctx lbl_row (ret tt)  in
+      let* _ := (fix rows (b : list frow) : M unit :=
+               match b with
+               | [] => ret tt
+               | r :: b' => let* _ := skip_frow r  in rows b'
+               end) body  in
+      with_ctx lbl_row (ret tt)                                     (* the end_for row *)
+  | _ => with_ctx lbl_row (ret tt)
+  end.
+Fixpoint skip_frows (b : list frow) : M unit :=
+  match b with
+  | [] => ret tt
+  | r :: b' => let* _ := skip_frow r  in skip_frows b'
+  end.
+(* a loop over zero elements: the repaired tree (EmptySkip) reads the body without evaluating
+   it; the unrepaired one (EmptyFallThrough) goes straight on to remove the variable *)
+Definition skip_empty_body (items : list str) (body : list frow) : M unit :=
+  match items, empty_loop_policy with
+  | [], EmptySkip => let* _ := skip_frows body  in with_ctx lbl_row (ret tt)
+  | _, _ => ret tt
+  end.
+
 (* one sheet row: SheetParser.parse_next_row (`with row: parse_row`) and then, for an
    ordinary row, FlowParser._parse_block's `with row: _parse_row(row)` *)
 Fixpoint parse_frow (sp : ref) (r : frow) (a : pstate) {struct r} : M pstate :=
@@ -360,6 +399,7 @@ Fixpoint parse_frow (sp : ref) (r : frow) (a : pstate) {struct r} : M pstate :=
         ret (mkP (p_nodes a ++ [(u, AEnter f None)]) c1))
   | FFor var items body =>
       let* _ := with_ctx lbl_row (ret tt)  in                       (* the begin_for row is parsed *)
+      let* d0 := read sp  in                                        (* get_shadowed_context *)
       let* a1 := (fix iter (its : list str) (a : pstate) {struct its} : M pstate :=
                match its with
                | [] => ret a
@@ -373,7 +413,8 @@ Fixpoint parse_frow (sp : ref) (r : frow) (a : pstate) {struct r} : M pstate :=
                    let* _ := with_ctx lbl_row (ret tt)  in           (* the end_for row is parsed *)
                    iter rest a'
                end) items a  in
-      let* _ := remove_from_context sp var  in
+      let* _ := skip_empty_body items body  in
+      let* _ := leave_loop sp var (aget d0 var)  in
       ret a1
   | FBadRow => with_ctx lbl_row (throw Raise)
   | FCritRow => let* _ := with_ctx lbl_row (ret tt)  in with_ctx lbl_row (throw Crit)
